@@ -56,7 +56,7 @@ def ref_opener(s: str) -> bool:
     return bool(m) and m.group(1).strip() in OPENER_NAMES
 
 
-def law_parent(k, lines_info, skip_flagged):
+def law_parent(k, lines_info, skip_flagged=False):
     """index of the law parent of line k, -1 for the program, None if the line must be flagged."""
     i = lines_info[k]["indent"]
     if i == 0:
@@ -75,134 +75,218 @@ def law_parent(k, lines_info, skip_flagged):
 
 
 # ------------------------------------------------------------------------------------------------ monitor
-def check_method(lines, res: Result, origin: str, text: str | None = None):
-    """lines: list of (id, content). If text is given the method is built with ParserMethod.from_pcode(text)."""
-    from openpectus.lang.model.parser import ParserMethod, ParserMethodLine, create_method_parser
-    import openpectus.lang.model.ast as p
+class _SplitDiffers(Exception):
+    pass
 
-    case = {"origin": origin, "lines": [list(x) for x in lines]}
+
+def run_parser(lines, text):
+    from openpectus.lang.model.parser import ParserMethod, ParserMethodLine, create_method_parser
     if text is not None:
-        case["text"] = text
-    res.count("texts")
+        method = ParserMethod.from_pcode(text)
+        exp_ids = [f"id_{i + 1}" for i in range(len(lines))]
+        if [ln.content for ln in method.lines] != [c for _, c in lines]:
+            raise _SplitDiffers()
+    else:
+        method = ParserMethod([ParserMethodLine(i, c) for i, c in lines])
+        exp_ids = [i for i, _ in lines]
+    return create_method_parser(method, ["Short", "Long", "Set1"]).parse_method(method), exp_ids
+
+
+def judge(lines, text=None):
+    """Parses with the real parser and evaluates the oracle. Returns a dict with
+    viol: [(rule, k, msg)], counts: Counter, info: per-line reference data, parents: actual parent index per line."""
+    import collections
+    import openpectus.lang.model.ast as p
+    out = {"viol": [], "counts": collections.Counter(), "info": None, "parents": None, "judged": 0}
+    cnt = out["counts"]
     try:
-        if text is not None:
-            method = ParserMethod.from_pcode(text)
-            exp_ids = [f"id_{i + 1}" for i in range(len(lines))]
-            if [ln.content for ln in method.lines] != [c for _, c in lines]:
-                # cannot happen for \n / \r\n joined contents without other boundary characters (generator invariant)
-                res.count("text_route_split_differs_not_judged")
-                return
-        else:
-            method = ParserMethod([ParserMethodLine(i, c) for i, c in lines])
-            exp_ids = [i for i, _ in lines]
-        prog = create_method_parser(method, ["Short", "Long", "Set1"]).parse_method(method)
+        prog, exp_ids = run_parser(lines, text)
+    except _SplitDiffers:
+        # cannot happen for \n / \r\n joined contents without other boundary characters (generator invariant)
+        cnt["text_route_split_differs_not_judged"] += 1
+        return out
     except Exception as ex:  # totality
-        res.violation(None, f"parse raised {type(ex).__name__}: {ex}"[:300], case)
-        res.case(None)
-        return
+        out["viol"].append(("raise", None, f"parse raised {type(ex).__name__}: {ex}"[:300]))
+        return out
     nodes = prog.get_all_nodes()[1:]
     n = len(lines)
-    ok_struct = True
     if len(nodes) != n:
-        res.violation("C17.node_count_differs", f"{n} lines but {len(nodes)} nodes", case)
-        ok_struct = False
-    else:
-        for k, nd in enumerate(nodes):
-            res.count("nodes_checked")
-            if nd.id != exp_ids[k] or nd.position.line != k:
-                res.violation("C17.node_order_or_id_differs",
-                              f"node #{k} has id {nd.id!r} line {nd.position.line}, expected id {exp_ids[k]!r} line {k}", case)
-                ok_struct = False
-                break
-            if nd.parent is None or (nd.parent is not prog and nd.parent not in nodes[:k]):
-                res.violation("C17.parent_not_a_preceding_line", f"node {nd.id} has parent "
-                              f"{nd.parent.id if nd.parent else None} which is not a preceding line", case)
-                ok_struct = False
-                break
-    if not ok_struct:
-        res.case(None)
-        return
-
+        out["viol"].append(("count", None, f"{n} lines but {len(nodes)} nodes"))
+        return out
+    for k, nd in enumerate(nodes):
+        cnt["nodes_checked"] += 1
+        if nd.id != exp_ids[k] or nd.position.line != k:
+            out["viol"].append(("order", k, f"node #{k} has id {nd.id!r} line {nd.position.line}, expected id "
+                                f"{exp_ids[k]!r} line {k}"))
+            return out
+        if nd.parent is None or (nd.parent is not prog and not any(nd.parent is x for x in nodes[:k])):
+            out["viol"].append(("parent_not_preceding", k, f"node {nd.id} has parent "
+                                f"{nd.parent.id if nd.parent else None} which is not a preceding line"))
+            return out
     info = []
     for k, (_, c) in enumerate(lines):
         nd = nodes[k]
         ws = is_ws_line(c)
         info.append({"ws": ws, "indent": lead(c), "opener": (not ws) and ref_opener(c), "flagged": bool(nd.indent_error),
                      "spaces_only": c[:lead(c)] == " " * lead(c)})
-    poisoned = False
-    judged = 0
-    viol = []
+    index_of = {id(nd): k for k, nd in enumerate(nodes)}
+    parents = [-1 if nd.parent is prog else index_of[id(nd.parent)] for nd in nodes]
+    out["info"], out["parents"] = info, parents
+    state = "correct"       # the text up to here is correctly indented according to the law
     for k, (_, c) in enumerate(lines):
         li = info[k]
         nd = nodes[k]
-        if li["ws"]:
-            res.count("whitespace_lines")
-            if not isinstance(nd, p.WhitespaceNode):
-                res.count("ws_kind_disagreement_not_judged")
-                poisoned = True
+        ambiguous = None
+        if li["ws"] != isinstance(nd, p.WhitespaceNode):
+            ambiguous = "ws_kind_disagreement_not_judged"
+        elif li["ws"]:
+            cnt["whitespace_lines"] += 1
             continue
-        if isinstance(nd, p.WhitespaceNode):
-            res.count("ws_kind_disagreement_not_judged")
-            poisoned = True
-            continue
-        ambiguous = False
-        if not li["spaces_only"]:
-            res.count("non_space_indentation_not_judged")
-            ambiguous = True
+        elif not li["spaces_only"]:
+            ambiguous = "non_space_indentation_not_judged"
         elif li["indent"] > 0 and nd.position.character != li["indent"]:
-            res.count("unparsable_indented_line_not_judged")
-            ambiguous = True
+            ambiguous = "unparsable_indented_line_not_judged"
         elif li["opener"] != isinstance(nd, p.NodeWithChildren):
-            res.count("opener_ambiguous_not_judged")
-            ambiguous = True
+            ambiguous = "opener_ambiguous_not_judged"
+        if state != "correct":
+            # after the first incorrectly indented (or ambiguous) line the statement leaves the placement of later
+            # lines open ("for correctly indented text ..."): observed, counted, not judged
+            cnt["lines_after_first_error_not_judged"] += 1
+            if ambiguous is None and not li["flagged"]:
+                if parents[k] not in (law_parent(k, info), law_parent(k, info, True)):
+                    cnt["after_error_unflagged_line_off_per_line_law (informational)"] += 1
+            continue
         if ambiguous:
-            poisoned = True
+            cnt[ambiguous] += 1
+            state = "ambiguous"
             continue
-        if li["indent"] == 0 and not li["flagged"]:
-            poisoned = False
-        if poisoned and li["indent"] != 0:
-            res.count("lines_after_ambiguous_line_not_judged")
+        la = law_parent(k, info)
+        if la is None:
+            cnt["law_must_flag"] += 1
+            state = "error"
+            if li["flagged"]:
+                cnt["flagged_lines"] += 1
+            else:
+                out["viol"].append(("must_flag", k, f"line {k} {c!r} (indent {li['indent']}) is the first incorrectly "
+                                    f"indented line, is not flagged and was given parent "
+                                    f"{'program' if parents[k] == -1 else 'line ' + str(parents[k])}"))
             continue
-        la = law_parent(k, info, False)
-        lb = law_parent(k, info, True)
-        if la is None and lb is None:
-            res.count("law_must_flag")
         if li["flagged"]:
-            res.count("flagged_lines")
-            if la is not None:
-                res.count("flagged_although_law_parent_exists")   # allowed by the implication
+            cnt["flagged_lines"] += 1
+            cnt["correctly_indented_line_flagged (allowed)"] += 1
             continue
-        res.count("parent_checks")
-        judged += 1
-        actual = -1 if nd.parent is prog else nodes.index(nd.parent)
-        if actual not in (la, lb):
-            viol.append((k, actual, la, lb))
-    for k, actual, la, lb in viol:
-        mech = classify(k, actual, la, lb, info)
-        want = "be flagged" if la is None and lb is None else \
-            " or ".join(sorted({("program" if x == -1 else f"line {x}") for x in (la, lb) if x is not None}))
-        res.violation(mech, f"line {k} {lines[k][1]!r} (indent {info[k]['indent']}) is not flagged and its parent is "
-                      f"{'program' if actual == -1 else 'line ' + str(actual) + ' ' + repr(lines[actual][1])}; law: {want}",
-                      case)
+        cnt["parent_checks"] += 1
+        out["judged"] += 1
+        if parents[k] != la:
+            state = "misnested"     # everything after a silent mis-nesting is a consequence of it
+            out["viol"].append(("parent", k, f"line {k} {c!r} (indent {li['indent']}) of a correctly indented text is "
+                                f"not flagged, its parent is "
+                                f"{'program' if parents[k] == -1 else 'line ' + str(parents[k]) + ' ' + repr(lines[parents[k]][1])}"
+                                f", law parent is {'program' if la == -1 else 'line ' + str(la) + ' ' + repr(lines[la][1])}"))
+    return out
+
+
+def check_method(lines, res: Result, origin: str, text: str | None = None):
+    """lines: list of (id, content). If text is given the method is built with ParserMethod.from_pcode(text)."""
+    res.count("texts")
+    out = judge(lines, text)
+    for name, c in out["counts"].items():
+        res.count(name, c)
+    case = {"origin": origin, "lines": [list(x) for x in lines]}
+    if text is not None:
+        case["text"] = text
+    for rule, k, msg in out["viol"]:
+        if rule in ("raise", "count", "order", "parent_not_preceding"):
+            res.violation(None if rule == "raise" else "C17." + {"count": "node_count_differs",
+                          "order": "node_order_or_id_differs", "parent_not_preceding": "parent_not_a_preceding_line"}[rule],
+                          msg, case)
+            continue
+        # minimal witness: the text truncated after the offending line is itself a correctly indented text (rule
+        # 'parent') resp. a text whose only incorrect line is the last one (rule 'must_flag')
+        cut = lines[:k + 1]
+        out2 = judge(cut) if k + 1 < len(lines) else out
+        again = [v for v in out2["viol"] if v[0] == rule and v[1] == k]
+        if again:
+            res.violation(classify(rule, k, out2["info"], out2["parents"], cut), again[0][2],
+                          {"origin": origin + " (truncated after the offending line)", "lines": [list(x) for x in cut]})
+        elif rule == "must_flag":
+            res.violation(classify(rule, k, out["info"], out["parents"], lines), msg, case)
+        else:
+            res.count("parent_violation_not_confirmed_on_truncated_text")
+    info = out["info"]
     key = None
-    if judged >= 2 and any(x["opener"] for x in info) and any(x["indent"] > 0 and not x["ws"] for x in info):
+    if info and out["judged"] >= 2 and any(x["opener"] for x in info) and \
+            any(x["indent"] > 0 and not x["ws"] for x in info):
         key = h([(("w" if x["ws"] else "o" if x["opener"] else "i"), x["indent"], x["flagged"]) for x in info])
     res.case(key, sample={"origin": origin, "lines": [c for _, c in lines][:12],
-                          "parents": [("root" if nd.parent is prog else nd.parent.id) + ("!" if nd.indent_error else "")
-                                      for nd in nodes][:12]})
+                          "parents": [("root" if q == -1 else lines[q][0]) + ("!" if i["flagged"] else "")
+                                      for q, i in zip(out["parents"], info)][:12] if info else None})
 
 
-def classify(k, actual, la, lb, info):
-    """Narrow causal classifiers of the two defects known on the unchanged tree."""
-    if actual < 0 or not info[actual]["opener"]:
+def classify(rule, k, info, parents, lines=None):
+    """Narrow causal classifiers of the defects known on the unchanged tree. All of them concern rule 'parent' (a
+    line of a correctly indented text that is silently nested too deep); a line that must be flagged and is not
+    never gets a key."""
+    if rule != "parent" or info is None:
         return None
-    between = [j for j in range(actual + 1, k)]
-    nonws_between = [j for j in between if not info[j]["ws"]]
     ind = info[k]["indent"]
-    # (1) pending opener with an empty body: the line directly following it (whitespace lines aside) has the
-    #     opener's own indentation and is appended to the opener
-    if not nonws_between and ind == info[actual]["indent"] and not info[actual]["flagged"] and la == lb:
-        return "C17.same_indent_after_opener_nested"
+    prev = [j for j in range(k - 1, -1, -1) if not info[j]["ws"]]
+    if not prev:
+        return None
+    o = prev[0]
+    actual = parents[k]
+    if info[o]["opener"] and not info[o]["flagged"] and ind <= info[o]["indent"]:
+        # (1) the nearest preceding instruction line is an opener whose body is still empty ("pending"); the parser
+        # pops (opener_indent - indent)/4 levels starting from the pending opener itself instead of from its parent, so
+        # the line ends up exactly one level too deep: in the opener (same indent) / in the opener's law ancestor that
+        # has the line's own indent (outdent)
+        chain = [o]
+        while chain[-1] != -1:
+            chain.append(law_parent(chain[-1], info))
+            if chain[-1] is None:
+                return None
+        too_deep = [c for c in chain if c != -1 and info[c]["indent"] == ind]
+        if too_deep and actual == too_deep[0]:
+            return "C17.same_indent_after_opener_nested" if ind == info[o]["indent"] else \
+                "C17.outdent_after_empty_opener_one_level_short"
+        return None
+    # (2) an opener u directly followed by a blank/comment line: the whitespace line clears the parser's 'increment
+    # required' state, the (correctly indented) first body line is flagged, the indentation bookkeeping (prev_indent,
+    # parent_node) is out of step from there on, and a later unflagged line is appended to a stale parent.
+    # Causal test: (a) such an opener/whitespace/flagged-first-body-line triple precedes the line, and (b) the real
+    # parser nests the line correctly once the whitespace runs that directly follow openers are deleted from the text.
+    cause = False
+    for u in range(k):
+        if info[u]["opener"] and u + 1 < k and info[u + 1]["ws"]:
+            body = [j for j in range(u + 1, k) if not info[j]["ws"]]
+            if body and info[body[0]]["flagged"] and law_parent(body[0], info) == u:
+                cause = True
+                break
+    if not cause or lines is None:
+        return None
+    keep = []
+    after_opener = False
+    for j in range(k + 1):
+        if info[j]["ws"]:
+            if after_opener:
+                continue
+        else:
+            after_opener = info[j]["opener"]
+        keep.append(j)
+    reduced = [lines[j] for j in keep]
+    out = judge(reduced)
+    k2 = len(reduced) - 1
+    if out["info"] is None or out["info"][k2]["flagged"]:
+        return None
+    rest = [v for v in out["viol"] if v[1] == k2]
+    if not rest:
+        return "C17.blank_after_opener_then_outer_line_nested"
+    # compound: the last body line is itself an opener with an empty body; without the whitespace runs the residual
+    # mis-nesting is exactly mechanism (1)
+    if rest[0][0] == "parent" and not any(i["ws"] and j > 0 and out["info"][j - 1]["opener"] for j, i in enumerate(out["info"])) \
+            and classify("parent", k2, out["info"], out["parents"], None) in (
+                "C17.same_indent_after_opener_nested", "C17.outdent_after_empty_opener_one_level_short"):
+        return "C17.blank_after_opener_then_outer_line_nested"
     return None
 
 
@@ -235,35 +319,36 @@ def symbols_for(alpha):
 
 
 def gen_struct(rnd: random.Random):
+    """Mostly correctly indented structures (so that long prefixes are judged) with many empty bodies, blank/comment
+    lines at arbitrary columns, and an occasional wrong indentation."""
     n = rnd.randint(2, 14)
+    p_bad = rnd.choice([0.0, 0.0, 0.03, 0.08, 0.25])
     lines = []
     prev = 0
     prev_open = False
     for k in range(n):
         r = rnd.random()
-        if r < 0.30:
+        if r < 0.32:
             kind, txt = "o", rnd.choice(OPEN)
-        elif r < 0.75:
+        elif r < 0.74:
             kind, txt = "i", rnd.choice(PLAIN)
-        elif r < 0.87:
-            kind, txt = "b", ""
+        elif r < 0.86:
+            kind, txt = "b", rnd.choice(["", "", "    ", "  "])
         elif r < 0.95:
             kind, txt = "c", rnd.choice(["# c", "#", "# Mark: x"])
         else:
             kind, txt = "g", rnd.choice(GARBAGE)
-        q = rnd.random()
-        if q < 0.35:
-            ind = prev + 4 if prev_open else prev
-        elif q < 0.55:
-            ind = prev
-        elif q < 0.70:
-            ind = max(0, prev - 4 * rnd.randint(1, 3))
-        elif q < 0.80:
+        if kind in "bc":
+            ind = rnd.choice([0, prev, prev + 4, rnd.randint(0, 13)])
+        elif rnd.random() < p_bad:
+            ind = rnd.choice([prev + 8, prev + 4, rnd.randint(0, 17), prev + rnd.choice([-2, -1, 1, 2, 3])])
+            ind = max(0, ind)
+        elif prev_open and rnd.random() < 0.7:
             ind = prev + 4
-        elif q < 0.92:
-            ind = 4 * rnd.randint(0, 4)
         else:
-            ind = rnd.randint(0, 17)
+            ind = 4 * rnd.randint(0, prev // 4)
+            if rnd.random() < 0.5:
+                ind = prev - prev % 4
         lines.append(" " * ind + txt)
         if kind in "oig":
             prev = ind
@@ -271,15 +356,14 @@ def gen_struct(rnd: random.Random):
     return lines
 
 
-def perturb(rnd: random.Random, lines: list[str]) -> list[str]:
+def perturb(rnd: random.Random, lines: list[str], rate: float = 1.0) -> list[str]:
     out = []
     for ln in lines:
-        r = rnd.random()
-        if r < 0.05:
+        if rnd.random() < 0.05 * rate:
             continue                      # deleted line (empties bodies)
         body = ln.lstrip(" ")
         ind = len(ln) - len(body)
-        r = rnd.random()
+        r = rnd.random() / max(rate, 1e-9)
         if r < 0.15:
             ind = max(0, ind + rnd.choice([-1, 1]) * rnd.randint(1, 8))
             ln = " " * ind + body
@@ -290,7 +374,7 @@ def perturb(rnd: random.Random, lines: list[str]) -> list[str]:
         elif r < 0.24:
             ln = ln + rnd.choice(["  ", "\t", " # tail"])
         out.append(ln)
-        if rnd.random() < 0.07:
+        if rnd.random() < 0.07 * rate:
             out.append(" " * rnd.choice([0, 0, ind, ind + 4, rnd.randint(0, 12)]) + rnd.choice(BLANKS))
     return out or ["Mark: a"]
 
@@ -352,12 +436,12 @@ def run_shard(spec):
         if r < 0.30:
             g = Gen(rnd, max_depth=3, base_s=rnd.random() < 0.5)
             base = g.program(rnd.randint(2, 7)).split("\n")[:-1]
-            lines = perturb(rnd, base) if rnd.random() < 0.9 else base
+            lines = perturb(rnd, base, rnd.choice([0.15, 0.3, 1.0])) if rnd.random() < 0.9 else base
             origin = "grammar+perturbation"
         elif r < 0.70:
             lines = gen_struct(rnd)
             if rnd.random() < 0.4:
-                lines = perturb(rnd, lines)
+                lines = perturb(rnd, lines, rnd.choice([0.15, 0.3, 1.0]))
             origin = "structure generator"
         elif r < 0.90:
             lines = gen_unicode(rnd, True)
